@@ -196,6 +196,7 @@ def decorated():
 def worker(shard, nshards, plan, quick):
     logging.disable(logging.CRITICAL)
     trans = transitions(quick)
+    trans_light = [(n, f) for n, f in trans if n in ("dump_load", "json", "pickle4", "copy")]
     res = {"states": 0, "transitions": 0, "viol": {}, "samples": [], "coverage": set(), "classes": set(), "nontrivial": 0}
     idx = 0
 
@@ -216,7 +217,9 @@ def worker(shard, nshards, plan, quick):
             if len(sql) < len(v["sql"]):
                 v.update(sql=sql, dialect=dialect, phase=phase, transition=name, msg=msg)
 
-    for dialect, sqls in plan:
+    for unit in plan:
+        dialect, sqls = unit[0], unit[1]
+        light = len(unit) > 2 and unit[2] == "light"
         for sql in sqls:
             idx += 1
             if idx % nshards != shard:
@@ -229,7 +232,7 @@ def worker(shard, nshards, plan, quick):
                     tree = sqlglot.parse_one(sql, read=dialect or None)
                 except Exception:
                     continue
-                trees = phases(tree, dialect)
+                trees = phases(tree, dialect) if not light else [("parsed", tree)]
                 sql_text = sql
             for phase, t in trees:
                 res["states"] += 1
@@ -271,7 +274,7 @@ def worker(shard, nshards, plan, quick):
                 except Exception as e:
                     record("exception", "json", phase, dialect, sql_text, f"{type(e).__name__}: {str(e)[:80]}")
                 alone = {}   # basic transition -> codes it already produced on this state (compositions do not repeat them)
-                for name, f in trans:
+                for name, f in (trans if not light else trans_light):
                     res["transitions"] += 1
                     parts = name.split(">")
                     inherited = set().union(*(alone.get(p_, set()) for p_ in parts)) if len(parts) > 1 else set()
@@ -300,8 +303,9 @@ def run(ctx: Ctx) -> None:
     plan = []
     for d in dialects:
         plan.append((d, [s for c, s, t in statements(d, 1)]))
-        if not quick:
-            plan.append((d, [s for c, s, t in statements(d, 2) if c == 2][::11]))
+        if not quick and not d:
+            # every pair of constructs (complete k = 2, base dialect), as parsed, under the four basic transitions
+            plan.append((d, [s for c, s, t in statements(d, 2) if c == 2], "light"))
     plan.append(("", corpus.identity_sql()))
     # every statement of the repository's dialect tests, parsed by its own dialect (node classes and arg value kinds only
     # dialect-specific syntax produces: user-defined types, COPY / CREATE properties, hints, JSON paths...)
@@ -336,7 +340,7 @@ def run(ctx: Ctx) -> None:
             "traces_validated_against_impl": res["transitions"] + deco_res["transitions"],
             "evaluations": res["transitions"] + deco_res["transitions"],
             "distinct_nontrivial": res["nontrivial"] + deco_res["nontrivial"],
-            "rule": "states = trees (G_core k<=1 per dialect, identity.sql, optimizer/annotate fixtures, every statement of tests/dialects/*.py in its own dialect) as parsed / annotated / qualified / "
+            "rule": "states = trees (G_core k<=1 per dialect" + ("" if quick else "; all of k<=2 in the base dialect as parsed under dump+load / JSON / pickle4 / copy") + ", identity.sql, optimizer/annotate fixtures, every statement of tests/dialects/*.py in its own dialect) as parsed / annotated / qualified / "
                     "qualified+annotated, plus hand-decorated trees and a cast to every DType member (bare / parameterised / nested); transitions = dump+load, JSON text round trip, pickle 2..5, copy, "
                     "deepcopy and 7 compositions; every transition must return an equal state (==, fingerprint with public types, "
                     "comments, meta; same SQL; tree invariants; no shared node). non-trivial = states carrying comments, meta or types.",
